@@ -34,6 +34,33 @@ PERSIST_EXEMPT = {
 }
 
 
+def lock_rule(ctx, prog, RID):
+    """every call of Session::send_process outside the writer thread holds FIXWriter::_con_spl through an unconditional scoped guard (whatever the process
+    model: in the coroutine model the timer thread's heartbeat still sends)"""
+    found = {}
+    for f in prog.all_functions():
+        for c in f.calls_to(S + 'send_process'):
+            found.setdefault(f.qp, []).append((f, c))
+    ctx.need(len(found) >= 3, 'fewer than 3 functions call Session::send_process')
+    for fq, sites in sorted(found.items()):
+        ctx.check(fq in CALLERS, RID, fq + '#caller', sites[0][1].loc, fq + ' is a listed caller of Session::send_process',
+                  'new caller of Session::send_process: %s — outside the connection writer\'s locking discipline' % fq)
+        if fq not in CALLERS or fq == W + 'execute':
+            continue
+        for (f, c) in sites:
+            ctx.saw(f)
+            cfg = f.cfg
+            gr = q.guard_ranges(f, lock_member_qp=W + '_con_spl')
+            cv = cfg.vertex_of(c)
+            held = [g for g in gr if cv in g[3]]
+            uncond = [g for g in held if g[4].is_call and len([a for a in g[4].args if a.k != 'CXXDefaultArgExpr']) == 1]
+            ctx.check(bool(uncond), RID, '%s/%d#locked@%d' % (fq, len(f.param_ids), sites.index((f, c))), c.loc,
+                      'send_process is called with FIXWriter::_con_spl held (unconditional scoped guard)',
+                      'send_process is called without the connection spin lock held unconditionally (%s): two threads - an application sender and the heartbeat timer - can '
+                      'be inside send_process together and use the same MsgSeqNum' % ('guard is disabled by its second argument `%s`' % held[0][4].args[1].text()
+                                                                                       if held and len(held[0][4].args) > 1 else 'no guard'))
+
+
 def run(ctx):
     prog = Program(UNITS)
     ctx.units.update(UNITS)
